@@ -178,10 +178,11 @@ package prunner
 //@   ensures  [graphError] !old(job.Canceled) && job.Canceled ==> job.Start == nil && job.LastError != nil
 //@   ensures  [C03.progress] !old(job.Canceled) && job.Canceled ==> progress(r, job.Pipeline)
 //@   ensures  [C06.suffix] suffixOf(r.waitListByPipeline[job.Pipeline], old(r.waitListByPipeline[job.Pipeline]))
+//@   at go (*PipelineRunner).startJob$1#1: assert [C11.jobTracked] $wgTokens == old($wgTokens) + 1
 //@   ensures  [persist] (!old(job.Canceled) ==> $persist) && (old($persist) ==> $persist)
 //@   ensures  [T] Tjobs() && Tcanceled()
 //@   ensures  [defs] r.defs == old(r.defs)
-//@   modifies PipelineJob.Start, PipelineJob.sched, PipelineJob.taskRunner, PipelineJob.LastError, PipelineJob.Canceled, taskctl.Scheduler.onStageChange, map(map[string][]*PipelineJob)@[r.waitListByPipeline], mem(time.Time), $persist, $clock
+//@   modifies PipelineJob.Start, PipelineJob.sched, PipelineJob.taskRunner, PipelineJob.LastError, PipelineJob.Canceled, taskctl.Scheduler.onStageChange, map(map[string][]*PipelineJob)@[r.waitListByPipeline], mem(time.Time), $persist, $clock, $wgTokens
 
 //@ func (*PipelineRunner).startJobsOnWaitList
 //@   lockmode W
@@ -192,7 +193,7 @@ package prunner
 //@   ensures  [persist] old($persist) ==> $persist
 //@   ensures  [T] Tjobs() && Tcanceled()
 //@   ensures  [defs] r.defs == old(r.defs)
-//@   modifies PipelineJob.Start, PipelineJob.sched, PipelineJob.taskRunner, PipelineJob.LastError, PipelineJob.Canceled, taskctl.Scheduler.onStageChange, map(map[string][]*PipelineJob)@[r.waitListByPipeline], mem(time.Time), $persist, $clock
+//@   modifies PipelineJob.Start, PipelineJob.sched, PipelineJob.taskRunner, PipelineJob.LastError, PipelineJob.Canceled, taskctl.Scheduler.onStageChange, map(map[string][]*PipelineJob)@[r.waitListByPipeline], mem(time.Time), $persist, $clock, $wgTokens
 //@   loop 1 invariant [ri] RI(r) && r.defs == old(r.defs) && r.waitListByPipeline == old(r.waitListByPipeline)
 //@   loop 1 invariant [current] waitList == r.waitListByPipeline[pipeline]
 //@   loop 1 invariant [suffix] suffixOf(waitList, old(r.waitListByPipeline[pipeline]))
@@ -219,8 +220,9 @@ package prunner
 //@   ensures  [C03.progress] (id in old(r.jobsByID)) && old(jobWaiting(r.jobsByID[id])) && !old(r.jobsByID[id].Completed) ==> progress(r, old(r.jobsByID[id]).Pipeline)
 //@   ensures  [T] Tjobs()
 //@   ensures  [defs] r.defs == old(r.defs) && same(PipelineJob.Completed) && same("map(map[uuid.UUID]*PipelineJob)")
-//@   modifies PipelineJob.Start, PipelineJob.sched, PipelineJob.taskRunner, PipelineJob.LastError, PipelineJob.Canceled, PipelineJob.startTimer, jobTask.Canceled, taskctl.Scheduler.onStageChange, map(map[string][]*PipelineJob)@[r.waitListByPipeline], mem(time.Time), mem(*PipelineJob), $persist, $clock, $stopped, $cancelSpawned
+//@   modifies PipelineJob.Start, PipelineJob.sched, PipelineJob.taskRunner, PipelineJob.LastError, PipelineJob.Canceled, PipelineJob.startTimer, jobTask.Canceled, taskctl.Scheduler.onStageChange, map(map[string][]*PipelineJob)@[r.waitListByPipeline], mem(time.Time), mem(*PipelineJob), $persist, $clock, $stopped, $cancelSpawned, $wgTokens
 //@   at go (*PipelineRunner).cancelJobInternal$1#1: ghost $cancelSpawned[job] := $cancelSpawned[job] + 1
+//@   at go (*PipelineRunner).cancelJobInternal$1#1: assert [C11.cancelTracked] $wgTokens >= old($wgTokens) + 1
 
 //@ func (*PipelineRunner).CancelJob
 //@   lockmode none
@@ -232,7 +234,8 @@ package prunner
 
 //@ func (*PipelineRunner).cancelJobInternal$1
 //@   lockmode none
-//@   modifies nothing
+//@   ensures [C11.tokens] $wgTokens == old($wgTokens) - 1
+//@   modifies $wgTokens
 
 // ---------------------------------------------------------------------------------------
 // Entry points (critical sections of the monitor)
@@ -359,9 +362,11 @@ package prunner
 //@   lockmode none
 //@   ensures  [T] Tjobs() && jobsUntouched()
 //@   ensures  [defs] r.defs == old(r.defs) && r.isShuttingDown == old(r.isShuttingDown)
+//@   ensures  [C11.tokens] $wgTokens == old($wgTokens)
+//@   at call Save#1: assert [C11.saveTracked] $wgTokens == old($wgTokens) + 1
 //@   ensures  [C12.keepLive] liveKept(r)
 //@   ensures  [C12.waitLists] sameExcept("map(map[string][]*PipelineJob)", r.jobsByPipeline)
-//@   modifies map(map[uuid.UUID]*PipelineJob)@[r.jobsByID], map(map[string][]*PipelineJob)@[r.jobsByPipeline], mem(*PipelineJob), $clock, $logsRemoved, $savedData
+//@   modifies map(map[uuid.UUID]*PipelineJob)@[r.jobsByID], map(map[string][]*PipelineJob)@[r.jobsByPipeline], mem(*PipelineJob), $clock, $logsRemoved, $savedData, $wgTokens
 //@   loop 1 invariant [ri] RI(r) && r.defs == old(r.defs) && r.jobsByPipeline == old(r.jobsByPipeline) && r.jobsByID == old(r.jobsByID) && jobsUntouched() && liveKept(r) && sameExcept("map(map[string][]*PipelineJob)", r.jobsByPipeline)
 //@   loop 2 invariant [ri] RI(r) && r.defs == old(r.defs) && r.jobsByPipeline == old(r.jobsByPipeline) && r.jobsByID == old(r.jobsByID) && jobsUntouched() && liveKept(r) && sameExcept("map(map[string][]*PipelineJob)", r.jobsByPipeline)
 //@   loop 1 invariant [bases] forall p string :: base(r.jobsByPipeline[p]) == old(base(r.jobsByPipeline[p])) && off(r.jobsByPipeline[p]) == old(off(r.jobsByPipeline[p]))
@@ -406,7 +411,7 @@ package prunner
 //@   lockmode none
 //@   ensures  [T] Tjobs()
 //@   ensures  [gate] r.isShuttingDown == old(r.isShuttingDown) && r.defs == old(r.defs)
-//@   modifies map(map[uuid.UUID]*PipelineJob), map(map[string][]*PipelineJob), mem(*PipelineJob), $clock, $logsRemoved, $savedData, $wgWaited
+//@   modifies map(map[uuid.UUID]*PipelineJob), map(map[string][]*PipelineJob), mem(*PipelineJob), $clock, $logsRemoved, $savedData, $wgWaited, $wgTokens
 //@   at call (*PipelineRunner).SaveToStore#1: assert [C11.finalSave] $wgWaited
 
 //@ func buildJobFromPersistedJob
